@@ -539,4 +539,31 @@ example : renderHeader [.fromTo (hdr "007") (hdr "12"), .suffix (hdr "3")] = hdr
 example : mrLoop content10 4 40 ⟨[1, 2, 3, 4, 5], 2, 6, 1, [⟨[9], 0, 2⟩]⟩ 3
     = some (pending content10 ⟨[1, 2, 3, 4, 5], 2, 6, 1, [⟨[9], 0, 2⟩]⟩) := by decide
 
+/-! ### a reused `File` object (mutation audit: per-object state, stale stat) -/
+
+/-- **C25 (e)** the answer of a `File` object to a request does not depend on the requests it served before
+    (other headers, the same header, the file having had another size or content then): it is the answer a
+    fresh object gives to that request alone. -/
+theorem serve_history_independent (bs : Nat) (ctype : Bytes) (pre : List Req) (q : Req) :
+    (serve bs ctype (pre ++ [q])).getLast? = some (respond bs q.content ctype q.boundary q.isHead q.range) := by
+  simp [serve]
+
+/-- every answer in such a sequence is one of 200/206/416, finishes, and has `Content-Length` body bytes -/
+theorem serve_never_internal_error (bs : Nat) (hbs : 0 < bs) (ctype : Bytes) (reqs : List Req) :
+    ∀ r ∈ serve bs ctype reqs, (r.code = 200 ∨ r.code = 206 ∨ r.code = 416) ∧ ∃ b, r.body = some b := by
+  intro r hr
+  obtain ⟨q, _, rfl⟩ := List.mem_map.mp hr
+  obtain ⟨hc, b, hb, _⟩ := never_internal_error bs hbs q.content ctype q.boundary q.isHead q.range
+  exact ⟨hc, b, hb⟩
+
+/-- non-vacuity: the second answer is computed from the file as it is NOW (20 bytes), not as it was (10 bytes) -/
+example : ((serve 4 [116] [⟨false, content10, [98], some (hdr "bytes=-5")⟩,
+                          ⟨false, content10 ++ content10, [98], some (hdr "bytes=-5")⟩]).map (·.contentRange))
+    = [some (hdr "bytes 5-9/10"), some (hdr "bytes 15-19/20")] := by decide
+
+-- classes added by the mutation audit: zero-padded numbers are numbers, non-ASCII digits are not
+example : parseRangeHeader (hdr "bytes=007-9,-03") = some [.fromTo 7 9, .suffix 3] := by decide
+example : parseRangeHeader ([98, 121, 116, 101, 115, 61, 0xd9, 0xa3, 45]) = none := by decide
+example : (respond 4 content10 [116] [98] false (some (hdr "bytes=0-5"))).body = some (content10.take 6) := by decide
+
 end TwistedProps.C25
